@@ -186,8 +186,20 @@ Definition sqlite_row_ok (r : N * N * bool * option (template * option N * optio
       else true
   end.
 
-Lemma sqlite_rows_ok : forallb sqlite_row_ok coltype_rows = true.
+(* (stated as an empty list of offending rows: when a type name changes, the error message of the failing
+   vm_compute names the rows) *)
+Lemma forallb_of_filter {A} (f : A -> bool) (l : list A) :
+  filter (fun x => negb (f x)) l = [] -> forallb f l = true.
+Proof.
+  induction l as [|x l IH]; [reflexivity|]. cbn [filter forallb]. destruct (f x); cbn [negb andb].
+  - exact IH.
+  - discriminate.
+Qed.
+
+Lemma sqlite_rows_offending : filter (fun r => negb (sqlite_row_ok r)) coltype_rows = [].
 Proof. vm_compute. reflexivity. Qed.
+Lemma sqlite_rows_ok : forallb sqlite_row_ok coltype_rows = true.
+Proof. apply forallb_of_filter. exact sqlite_rows_offending. Qed.
 
 Lemma affinity_eqb_eq a b : affinity_eqb a b = true -> a = b.
 Proof. destruct a, b; cbn; congruence. Qed.
@@ -400,8 +412,10 @@ Definition dialect_row_ok (r : N * N * bool * option (template * option N * opti
       end
   end.
 
-Lemma dialect_rows_ok : forallb dialect_row_ok coltype_rows = true.
+Lemma dialect_rows_offending : filter (fun r => negb (dialect_row_ok r)) coltype_rows = [].
 Proof. vm_compute. reflexivity. Qed.
+Lemma dialect_rows_ok : forallb dialect_row_ok coltype_rows = true.
+Proof. apply forallb_of_filter. exact dialect_rows_offending. Qed.
 
 (* the same in logical form *)
 Definition is_pg (d : backend) : bool := match d with Postgres => true | _ => false end.
@@ -503,5 +517,7 @@ Definition probe_ok (r : N * N * bool * N * N * option str) : bool :=
       | _, _ => false
       end
   end.
-Lemma probes_ok : forallb probe_ok coltype_probes = true.
+Lemma probes_offending : filter (fun r => negb (probe_ok r)) coltype_probes = [].
 Proof. vm_compute. reflexivity. Qed.
+Lemma probes_ok : forallb probe_ok coltype_probes = true.
+Proof. apply forallb_of_filter. exact probes_offending. Qed.
